@@ -40,7 +40,7 @@ macro_rules! alloc_off {
 }
 // H: tier=quick; unwind=5; sym=2 part offsets (any i32) and payload of a Polyline record with concrete counts (2 parts, 2 points); asserts=per-part vectors are pre-sized from offset differences: every request <= 64 x record bytes + 4096
 alloc_off!(c17_q_alloc_polyline_offsets, Polyline, 84, 5);
-// H: tier=thorough; unwind=9; sym=2 part offsets, patch kinds and payload of a Multipatch record with concrete counts; asserts=as above
+// H: tier=manual; unwind=9; sym=2 part offsets, patch kinds and payload of a Multipatch record with concrete counts; asserts=as above; note=not run by any tier: the multipatch decoder on arbitrary offsets exhausts the solver (see C07)
 alloc_off!(c17_t_alloc_multipatch_offsets, Multipatch, 156, 9);
 
 // H: tier=quick; unwind=22; sym=116 index bytes behind a valid file code (length field arbitrary), arbitrary .shp header; call=ShapeReader::with_shx; asserts=the index vector is not pre-sized beyond 64 x 216 + 4096 bytes from the declared length
